@@ -58,8 +58,10 @@ def rename_locals(tree):
                         captured.add(m.id)
                     if isinstance(m, (ast.Nonlocal, ast.Global)):
                         captured |= set(m.names)
-        # nested function / class names defined here are Store-less; keep them
-        todo = assigned - params - declared - captured - {"_", "__class__"}
+        # nested function / class names defined here are Store-less; keep them (also when the same spelling is
+        # re-bound later as a plain local: renaming only the Name nodes would break the reference to the def)
+        nested_defs = {n.name for n in body_nodes if isinstance(n, (ast.FunctionDef, ast.AsyncFunctionDef, ast.ClassDef))}
+        todo = assigned - params - declared - captured - nested_defs - {"_", "__class__"}
         todo = {x for x in todo if not x.startswith("__")}
         if not todo:
             continue
